@@ -1,12 +1,12 @@
 #!/usr/bin/env bash
 # False-alarm run: applies every benign (property-preserving) change under /verif/seeded/benign to a scratch
 # worktree of /repo in turn and runs all quick checks against it (exit 0 and no VIOLATION expected).
-# Usage: tools/run_benign.sh <worktree>     (a git worktree of /repo outside /repo and /verif)
+# Usage: tools/run_benign.sh <worktree> [name-filter]     (a git worktree of /repo outside /repo and /verif)
 set -u
 cd "$(dirname "$0")/.."
 WT="${1:?worktree}"
 ok=0; bad=0
-for patch in seeded/benign/*.diff; do
+for patch in seeded/benign/*${2:-}*.diff; do
   name=$(basename "$patch" .diff)
   git -C "$WT" checkout -q -- . ; git -C "$WT" clean -qfd -e Cargo.lock -e target >/dev/null 2>&1
   if ! git -C "$WT" apply "$PWD/$patch" 2>/dev/null && ! git -C "$WT" apply --3way "$PWD/$patch" >/dev/null 2>&1; then echo "SKIP   $name: patch does not apply"; continue; fi
